@@ -43,6 +43,16 @@ impl Word for u128 {
     const BITS: usize = Self::BITS as usize;
 }
 
+#[cfg(feature = "verif-hooks")]
+impl Word for u8 {
+    const BITS: usize = Self::BITS as usize;
+}
+
+#[cfg(feature = "verif-hooks")]
+impl Word for u16 {
+    const BITS: usize = Self::BITS as usize;
+}
+
 /// `FieldParameters` sets the parameters to implement a prime field
 /// GF(p) for which the prime modulus `p` fits in one word of
 /// `W ≤ 128` bits.
